@@ -292,6 +292,15 @@ def skipNextPrintedArg : Nat → Bytes → UInt8 → Option Bytes → Bool → B
           ellipsisTail (skipNextPrintedArg fuel) oldSrc sw src2 llhssrc insideBundle
         else pure { src := some src, skipped := sw.skipped, type := sw.type }
 
+/-- the recursion bound handed to `rtosc_skip_next_printed_arg` by the loop of the checker.  The C code has no
+    bound; its call depth is limited by the text: a call works inside the argument it skips (elements of an
+    array) or, behind "...", on the previous argument `recent` (`llhssrc`), which lies BEFORE `src`.  So the
+    bound must cover the text from `recent` on, not only the text from `src` on (with `src.length + 2` a left
+    neighbour nested deeper than the rest of the text is long, `[[[[[[[[1]]]]]]]] 2...5`, ran out of fuel in
+    the model only). -/
+def lookBackFuel (src : Bytes) (recent : Option Bytes) : Nat :=
+  max src.length (match recent with | some r => r.length | none => 0) + 2
+
 /-- the loop of `rtosc_count_printed_arg_vals` -/
 def countLoop : Nat → Option Bytes → Option Bytes → Int → Res Int
   | 0, _, _, _ => .error .fuel
@@ -300,7 +309,7 @@ def countLoop : Nat → Option Bytes → Option Bytes → Int → Res Int
     | none => .ok (-num)
     | some src =>
       if hd src ≠ 0 ∧ hd src ≠ 47 then do
-        let r ← skipNextPrintedArg (src.length + 2) src 0 recent true false
+        let r ← skipNextPrintedArg (lookBackFuel src recent) src 0 recent true false
         let src1 : Option Bytes ← match r.src with
           | none => pure none
           | some s => do
